@@ -82,11 +82,20 @@ func (f *ufile) bytes(r *verifrt.Rand) []byte {
 			es = append(es, verifref.Entry{Name: k, Value: f.Counts[k]})
 		}
 	}
+	if f.Kind == "pagecut" {
+		// a file that had grown over several pages and lost all but the first:
+		// chains of its hash table lead beyond the end of the file
+		for k := 0; k < 40; k++ {
+			es = append(es, verifref.Entry{Name: fmt.Sprintf("fill/%d/", k) + strings.Repeat("f", 1000), Value: 1})
+		}
+	}
 	d, err := verifref.BuildCounterFile(f.meta(), es)
 	if err != nil {
 		panic(err)
 	}
 	switch f.Kind {
+	case "pagecut":
+		d = d[:verifref.PageSize]
 	case "garbage":
 		d = r.Bytes(len(d))
 	case "truncated":
